@@ -456,6 +456,11 @@ func checkAndExtractFieldType(paths []string, typ reflect.Type) (extracted refle
 
 		// at request time exactly one pointer level is dereferenced, see takeOne and checkAndExtractToField
 		if extracted.Kind() == reflect.Ptr {
+			if extracted.Elem().Kind() == reflect.Interface {
+				// the request time walkers follow a pointer only to a struct: a pointer to an interface can never be walked
+				return nil, false, fmt.Errorf("intermediate type[%v] is not valid", extracted)
+			}
+
 			extracted = extracted.Elem()
 		}
 
